@@ -17,6 +17,8 @@ from typing import Callable, List
 
 import torch
 
+from ..qtensor import qfallback
+from .packed import PackedTensor
 from .qbits import QBitsTensor
 
 
@@ -68,3 +70,15 @@ def detach(op, t):
     scale = op(t._scale)
     zeropoint = op(t._zeropoint)
     return t.__class__(t._qtype, t._axis, t._group_size, t.size(), t.stride(), data, scale, zeropoint)
+
+
+@register_qbitstensor_op([torch.ops.aten.clone])
+def clone(op, t, memory_format=torch.preserve_format):
+    # Clone is required by copy.deepcopy: the packed data, scale and zeropoint are cloned as they are
+    if type(t) != QBitsTensor:
+        return qfallback(op, t, memory_format=memory_format)
+    packed = t._data
+    data = PackedTensor(op(packed._data, memory_format=memory_format), packed.bits, packed.size(), packed.stride())
+    scale = op(t._scale, memory_format=memory_format)
+    zeropoint = op(t._zeropoint, memory_format=memory_format)
+    return QBitsTensor(t._qtype, t._axis, t._group_size, t.size(), t.stride(), data, scale, zeropoint)
